@@ -617,8 +617,22 @@ class MailExecutor(UnitsExecutor):
 
     def symbolic_for(self, s, st, it):
         if not self._probing:
-            self._append_kinds = self.probe_kinds(s, st, it)
+            appends = any(isinstance(n, ast.Call) and isinstance(n.func, ast.Attribute) and n.func.attr in ("append", "extend")
+                          for b in s.body for n in ast.walk(b))
+            self._append_kinds = self.probe_kinds(s, st, it) if appends else {}
         return super().symbolic_for(s, st, it)
+
+    def dict_method(self, st, obj, mapping, name, args, kwargs, node, const):
+        # TABLE.get(symbolic key) over a constant str->str table: Optional value without forking
+        if const and name == "get" and len(args) == 1 and isinstance(args[0], VStr) and args[0].const() is None \
+                and mapping and all(isinstance(k, str) and isinstance(v, VStr) and v.const() is not None for k, v in mapping.items()):
+            key = args[0].t
+            hit = z3.Or([key == z3.StringVal(k) for k in mapping])
+            acc = EMPTY
+            for k, v in reversed(list(mapping.items())):
+                acc = z3.If(key == z3.StringVal(k), v.t, acc)
+            return [(st, VOpt(z3.Not(hit), VStr(acc)))]
+        return super().dict_method(st, obj, mapping, name, args, kwargs, node, const)
 
     def havoc_loop_state(self, st, body, spec, extra_names=()):
         if not self._probing:
